@@ -1,5 +1,7 @@
 import MockeryModel.Gen.AllocMachine
 import MockeryLemmas.Alloc
+import MockeryModel.Generated.AllocFacts
+import MockeryModel.Gen.AllocText
 /-!
 # C15 — Name and import allocators never produce collisions
 
@@ -202,5 +204,24 @@ example : Reachable ((Registry.mk "d" true []).addImports [("http", "net/http"),
   ⟨"d", true, _, rfl⟩
 example : ((Registry.mk "d" true []).addImports [("http", "net/http"), ("http", "x/http"), ("http", "d")]).quals
     = ["http", "http0"] := by decide
+
+/-- the allocator functions the models of `Gen/Scope.lean` and `Gen/Registry.lean` were written against are the current
+source's, statement by statement (`SuggestName`, `AllocateName`, `AddName`, `NameExists`,
+`ResolveVariableNameCollisions`, `NewMethodScope`, `Registry.addImport` / `AddImport` / `Imports` / `MethodScope`,
+`Packages.PkgQualifier`, `Package.Qualifier`) -/
+theorem allocators_transcribed :
+    Generated.newMethodScopeBody = Gen.AllocText.expectedNewMethodScopeBody ∧
+    Generated.suggestNameBody = Gen.AllocText.expectedSuggestNameBody ∧
+    Generated.allocateNameBody = Gen.AllocText.expectedAllocateNameBody ∧
+    Generated.addNameBody = Gen.AllocText.expectedAddNameBody ∧
+    Generated.nameExistsBody = Gen.AllocText.expectedNameExistsBody ∧
+    Generated.resolveVariableNameCollisionsBody = Gen.AllocText.expectedResolveVariableNameCollisionsBody ∧
+    Generated.registryAddImportBody = Gen.AllocText.expectedRegistryAddImportBody ∧
+    Generated.registryAddImportExportedBody = Gen.AllocText.expectedRegistryAddImportExportedBody ∧
+    Generated.registryImportsBody = Gen.AllocText.expectedRegistryImportsBody ∧
+    Generated.registryMethodScopeBody = Gen.AllocText.expectedRegistryMethodScopeBody ∧
+    Generated.pkgQualifierBody = Gen.AllocText.expectedPkgQualifierBody ∧
+    Generated.packageQualifierBody = Gen.AllocText.expectedPackageQualifierBody := by
+  exact ⟨rfl, rfl, rfl, rfl, rfl, rfl, rfl, rfl, rfl, rfl, rfl, rfl⟩
 
 end Mockery.C15
